@@ -3,4 +3,4 @@ NEXT Next
 CONSTANTS
   MaxT = 3
   MaxGroupT = 2
-  MaxBody = 4
+  MaxBody = 3
